@@ -36,6 +36,10 @@ def cases(tier, seed):
     for j in range(3 if tier == "quick" else 60):
         out.append({"s": int(rng.integers(1 << 30)), "topology": "big_star", "repl": ["keep_rest_replace_first", "substitute_all", "empty"][j % 3], "cell": "ortho",
                     "replace_all": False, "ignore": False, "fraction": 1.0, "sample": "real", "k": [130, 260, 128][j % 3]})
+    # a search pattern of more than 256 atoms whose last atom is shared by two occurrences
+    for j in range(2 if tier == "quick" else 12):
+        out.append({"s": int(rng.integers(1 << 30)), "topology": "big_helix", "repl": ["keep_first_replace_rest", "substitute_all"][j % 2], "cell": "ortho",
+                    "replace_all": bool(j % 2), "ignore": False, "fraction": 1.0, "sample": "real", "k": [260, 300][j % 2]})
     return out
 
 
@@ -52,6 +56,18 @@ def build(rng, case):
             els.append("N" if top == "homo_chain" else ("Si" if i % 2 == 0 else "O"))
             pos.append([i * d, 0, 0])
         pat = {"elements": ["N", "N"] if top == "homo_chain" else ["Si", "O"], "positions": np.array([[0, 0, 0], [d, 0, 0]], float)}
+    elif top == "big_helix":
+        # a search pattern of 260 atoms (a jittered helix of O / N / B atoms, no symmetry), twice in the structure: the second
+        # copy is the first turned by 180 degrees about an axis through the pattern's LAST atom, which the two copies share
+        m = case["k"]
+        th = np.arange(m) * 0.7
+        hel = np.stack([np.arange(m) * 0.165, 2.0 * np.cos(th), 2.0 * np.sin(th)], axis=1) + rng.uniform(-0.12, 0.12, (m, 3))
+        hels = [["O", "N", "B"][int(x)] for x in rng.integers(0, 3, m)]
+        second = hel[:-1].copy()
+        second = (second - hel[-1]) * np.array([-1.0, -1.0, 1.0]) + hel[-1]        # rotation by pi about the z axis through the last atom
+        els = hels + hels[:-1]
+        pos = [list(p) for p in hel] + [list(p) for p in second]
+        pat = {"elements": list(hels), "positions": hel.copy()}
     elif top == "big_star":
         k = case["k"]
         els.append("Zr")
@@ -310,6 +326,8 @@ def requirements(stats, tier):
         need.append("no hub atom claimed by 128 or more matches observed")
     if stats.nseen("flag_form") < 8:
         need.append("forms of the ignore flag observed: %s" % sorted(stats.sets.get("flag_form", [])))
+    if not stats.has("topology", "big_helix"):
+        need.append("no search pattern of more than 256 atoms observed")
     if stats.get("pattern_pairs_with_differing_type_labels") < (50 if tier == "quick" else 5000):
         need.append("pattern pairs with differing type labels: %d" % stats.get("pattern_pairs_with_differing_type_labels"))
     if stats.nseen("topology") < 5 or stats.nseen("repl") < len(REPLS):
